@@ -234,6 +234,19 @@ class TDRedfieldRelaxationTensor(RedfieldRelaxationTensor, TimeDependent):
             S1 = inv
         dim = SS.shape[0]
 
+        # the representation in a complex basis is complex: real storage
+        # would silently drop its imaginary part
+        if numpy.iscomplexobj(SS):
+            if not self._data_initialized:
+                if not numpy.iscomplexobj(self._Km):
+                    self._Km = self._Km.astype(numpy.complex128)
+                if not numpy.iscomplexobj(self._Lm):
+                    self._Lm = self._Lm.astype(numpy.complex128)
+                if not numpy.iscomplexobj(self._Ld):
+                    self._Ld = self._Ld.astype(numpy.complex128)
+            elif not numpy.iscomplexobj(self._data):
+                self._data = self._data.astype(numpy.complex128)
+
         if not self._data_initialized:
             for tt in range(self.Nt):
                 for m in range(self._Km.shape[0]):
